@@ -17,17 +17,17 @@ Definition wf_table (t : table) : bool :=
 (* the caller is still the process the object was created for *)
 Definition alive_b (t : table) (o : pobj) : bool :=
   match lookup t (o_pid o) with
-  | Some e => (kp_start e =? o_ident o)
+  | Some e => o_known o && (kp_start e =? o_ident o)
               && match o_ctime o with None => true | Some c => c =? o_ident o end
   | None => false
   end.
 (* the same without any condition on the create_time() cache *)
 Definition live_b (t : table) (o : pobj) : bool :=
-  match lookup t (o_pid o) with Some e => kp_start e =? o_ident o | None => false end.
+  match lookup t (o_pid o) with Some e => o_known o && (kp_start e =? o_ident o) | None => false end.
 (* the caller's PID now belongs to another process (different start ticks) *)
 Definition recycled_b (t : table) (o : pobj) : bool :=
   match lookup t (o_pid o) with
-  | Some e => negb (kp_start e =? o_ident o)
+  | Some e => o_known o && negb (kp_start e =? o_ident o)
   | None => false
   end.
 
